@@ -6,6 +6,7 @@ builds one real SoundEvent per identifier, lays them out by "id" (twin positions
 passes a comparison function that answers by looking the (unordered) identifier pair up in the relation and logs its
 arguments, and records the returned sequences and the call log as identifiers.
 """
+import functools
 import uuid
 import numpy as np
 from soundevent import data
@@ -24,7 +25,10 @@ RULE = ("every graph (symmetric irreflexive relation) on 0..5 (quick) / 0..6 (th
         "dense random), plus lists that hold an event at several positions (twins: every partition of <= 4 (quick) / <= 5 "
         "(thorough) positions into twin classes x every relation on the events incl. f(a, a); random ones with 1..3 repeats); "
         "every non-empty set of events without geometry on lists of <= 4 positions (random otherwise); "
-        "the comparison function answers as bool, numpy.bool_ or int (all three for every graph on <= 4 (quick) / <= 5 "
+        "the comparison function comes as plain function, lambda, partial, bound method, callable object and falsy callable "
+        "object (every guise for lists of <= 3 (quick) / <= 4 (thorough) positions, random otherwise), also looks at the "
+        "geometry of its arguments when events lack one, and logs whether its arguments equal the input events; "
+        "it answers as bool, numpy.bool_ or int (all three for every graph on <= 4 (quick) / <= 5 "
         "(thorough) positions, random otherwise); each executed twice (distinct geometries, twins = the same object / events identical up to their uuid, twins = equal "
         "copies); "
         "non-trivial = at least one edge and at least two components or a component that needs a chain of >= 2 links")
@@ -66,6 +70,50 @@ def _events(ids, variant, ng=()):
 _RET = {"bool": bool, "np_bool": np.bool_, "int": int}
 
 
+class _Rule:
+    """A comparison rule as an object."""
+    def __init__(self, fn):
+        self.fn = fn
+
+    def __call__(self, a, b):
+        return self.fn(a, b)
+
+    def similar(self, a, b):
+        return self.fn(a, b)
+
+
+class _RuleWithExceptions(_Rule):
+    """... holding an (empty) list of exceptions: len(rule) == 0, so the object is falsy."""
+    exceptions = ()
+
+    def __len__(self):
+        return len(self.exceptions)
+
+
+class _QuietRule(_Rule):
+    def __bool__(self):
+        return False
+
+
+def _guise(name, fn):
+    """The same comparison function in different shapes; every one of them is a callable."""
+    if name == "function":
+        return fn
+    if name == "lambda":
+        return lambda a, b: fn(a, b)
+    if name == "partial":
+        return functools.partial(lambda tag, a, b: fn(a, b), "rule")
+    if name == "method":
+        return _Rule(fn).similar
+    if name == "object":
+        return _Rule(fn)
+    if name == "falsy_len":
+        return _RuleWithExceptions(fn)
+    if name == "falsy_bool":
+        return _QuietRule(fn)
+    raise ValueError(name)
+
+
 def _run(case, variant):
     ids = case["id"]
     rel = {(a, b) for a, b in case["e"]} | {(b, a) for a, b in case["e"]}       # on identifiers, incl. (a, a) for twins
@@ -78,32 +126,50 @@ def _run(case, variant):
 
     answer = _RET[case.get("ret", "bool")]       # the type in which the comparison function hands its answer back
 
-    def comparison_fn(se1, se2):
-        a, b = identifier(se1), identifier(se2)
-        calls.append([a, b])
-        return answer((a, b) in rel)
+    by_id = {}
+    for ev, a in zip(events, ids):
+        by_id.setdefault(a, ev)
+    gd = case.get("gd", False)
+    identity = []                                 # per call: are the arguments the very input objects? (recorded, not judged)
 
+    def compare(se1, se2):
+        a, b = identifier(se1), identifier(se2)
+        # shipped facts: does each argument equal, in every field, the input event of its identifier?
+        fa = int(a != 0 and bool(se1 == by_id[a]))
+        fb = int(b != 0 and bool(se2 == by_id[b]))
+        calls.append([a, b, fa, fb])
+        identity.append([any(se1 is e for e in events), any(se2 is e for e in events)])
+        looks = True
+        if gd:      # a function that also looks at its arguments: geometry present / absent as the input event has it
+            looks = all(x is not None and y is not None and (x.geometry is None) == (y.geometry is None)
+                        for x, y in ((se1, by_id.get(a)), (se2, by_id.get(b))))
+        return answer(((a, b) in rel) and looks)
+
+    comparison_fn = _guise(case.get("guise", "function"), compare)
     try:
         result = group_sound_events(events, comparison_fn)
     except Exception as ex:
-        return {"raised": type(ex).__name__, "seqs": [], "calls": calls}
+        return {"raised": type(ex).__name__, "seqs": [], "calls": calls, "ident": identity}
     seqs = []
     for s in result:
         if not isinstance(s, data.Sequence):
             raise TypeError(f"group_sound_events returned a {type(s).__name__}")
         seqs.append([identifier(x) for x in s.sound_events])
-    return {"raised": "", "seqs": seqs, "calls": calls}
+    return {"raised": "", "seqs": seqs, "calls": calls, "ident": identity}
 
 
 def execute(case):
     return {"runs": [_run(case, 0), _run(case, 1)]}
 
 
-def _graph(n, edges, ids=None, loops=(), ret="bool", ng=()):
+_GUISES = ["function", "lambda", "partial", "method", "object", "falsy_len", "falsy_bool"]
+
+
+def _graph(n, edges, ids=None, loops=(), ret="bool", ng=(), gd=False, guise="function"):
     """edges / loops are on identifiers; without ids every position holds its own event."""
     es = sorted({(min(a, b), max(a, b)) for a, b in edges if a != b} | {(a, a) for a in loops})
     return {"n": n, "id": list(ids) if ids else list(range(1, n + 1)), "e": [list(e) for e in es], "ret": ret,
-            "ng": sorted(ng)}
+            "ng": sorted(ng), "gd": bool(gd), "guise": guise}
 
 
 def random_cases(rng, tier):
@@ -148,7 +214,8 @@ def random_cases(rng, tier):
                          ret=rng.choice(["bool", "np_bool", "int"]))
         else:
             ng = rng.sample(range(1, n + 1), rng.choice([0, 1, 1, 2, 3])) if k % 3 == 1 else []     # events without geometry
-            yield _graph(n, e, ret=rng.choice(["bool", "np_bool", "int"]), ng=ng)
+            yield _graph(n, e, ret=rng.choice(["bool", "np_bool", "int"]), ng=ng, gd=bool(ng) and rng.random() < 0.7,
+                         guise=rng.choice(_GUISES))
 
 
 def nontrivial(o):
@@ -169,7 +236,8 @@ MANIFEST = {
              "machine (one step per unordered pair building the symmetric matrix and the call log, breadth-first component "
              "labelling, regrouping by label) and TLC proves Impl => Req and termination for every graph on <= 5 nodes "
              "(quick) / <= 6 nodes (thorough, 33 868 graphs); every graph is then run on the real function with a logging "
-             "table-lookup comparison function answering as bool / numpy.bool_ / int, with events that have no geometry, twice (distinct / identical-up-to-uuid events), plus random graphs on 7-12 "
+             "table-lookup comparison function answering as bool / numpy.bool_ / int, handed over in seven guises (incl. falsy callable objects), logging whether its "
+             "arguments equal the input events, with events that have no geometry, twice (distinct / identical-up-to-uuid events), plus random graphs on 7-12 "
              "nodes, and TLC validates sequences and call log clause by clause."),
     "note": ("trusted: TLC, binder checks/c13.py (encoder: positions by uuid); exhaustive up to 6 nodes, sampled 7-12; the "
              "input list is assumed to hold distinct events and the comparison function to be symmetric (quantifier of the statement)"),
